@@ -50,7 +50,7 @@ pub fn run_line(line: &str) -> Vec<String> {
         "sc" | "pe" | "peh" | "drg" => streams::run(f[0], args),
         "mac" | "dig" => macs::run(f[0], args),
         "aead_enc" | "aead_dec" | "aead_inc" | "aead_twice" | "aead_shape" => aead::run(f[0], args),
-        "hkdf_extract" | "hkdf_expand" | "pbkdf2" | "scrypt" | "scrypt_big" | "pbkdf2_big" | "scrypt_params" | "argon2" | "argon2b" | "argon2_accept" | "argon2_params" => {
+        "hkdf_extract" | "hkdf_expand" | "pbkdf2" | "pbkdf2_twice" | "scrypt" | "scrypt_big" | "pbkdf2_big" | "scrypt_params" | "argon2" | "argon2b" | "argon2_accept" | "argon2_params" => {
             kdfs::run(f[0], args)
         }
         "bulk" | "x25519" | "x25519_base" | "x_dh" | "x_dhc" | "x_base" | "x25519_iter" | "x_try" | "ed_keypair" | "ed_sign" | "ed_sign_ext"
